@@ -55,8 +55,18 @@ theorem identStart_facts {c : Char} (h : isIdentStart c = true) :
     · right; exact h
 
 
+/-- attribute values the printer writes so that the parser reads them back: no double quote, no
+    backslash (the printer quotes with `"` and the model has no escapes), none of the two marks -/
+def wfAttrVal (val : Name) : Prop := ∀ x ∈ val, x ≠ '"' ∧ x ≠ '\\' ∧ x ≠ '\x01' ∧ x ≠ '\x02'
+
+/-- every encoded attribute value the parser produces from such a value: any modifier letter, any of
+    the six operators -/
+def wfAttrV (v : Name) : Prop :=
+  ∃ val md op, v = attrEnc val md op ∧ wfAttrVal val ∧ (∀ m, md = some m → m.isAlpha = true) ∧
+    (∀ o, op = some o → (attrOpOfChar o).isSome = true)
+
 /-- the simple selectors covered by the round-trip theorem (no selector pseudo, no `&`; attribute
-    values are bare identifiers without modifier) -/
+    selectors with every operator, modifier, bare or quoted value) -/
 def wfS : Simple → Prop
   | .univ => True
   | .type n => validName n
@@ -66,7 +76,7 @@ def wfS : Simple → Prop
   | .pelem n => validName n
   | .pclass n => validName n ∧ isFakePelem n = false
   | .attr n none => validName n
-  | .attr n (some v) => validName n ∧ validName v
+  | .attr n (some v) => validName n ∧ wfAttrV v
   | .parent _ => False
   | .sel _ _ => False
 
@@ -89,21 +99,235 @@ theorem dropWhile_all {α : Type} (pr : α → Bool) : ∀ (l : List α), (∀ x
   | nil => intro _; rfl
   | cons x xs ih => intro h; simp [List.dropWhile, h x (by simp), ih (fun y hy => h y (by simp [hy]))]
 
-theorem attrValueText_valid {v : Name} (h : validName v) : attrValueText v = v := by
-  obtain ⟨⟨c, cs, e, hc⟩, hall⟩ := h
-  have h1 : ∀ x ∈ v, notMark x = true := by
-    intro x hx
-    have := (List.all_eq_true.1 hall) x hx
-    simp only [notMark, bne_iff_ne, ne_eq]
-    intro e1; subst e1; revert this; decide
-  have hid : (v.all isIdentCharB && (v.head?.map isIdentStartB).getD false) = true := by
+/-! ### attribute selectors: encoding, printer, parser -/
+
+theorem takeWhile_app_stop {α : Type} (pr : α → Bool) (l t : List α) (hl : ∀ x ∈ l, pr x = true)
+    (ht : ∀ c cs, t = c :: cs → pr c = false) :
+    (l ++ t).takeWhile pr = l ∧ (l ++ t).dropWhile pr = t := by
+  induction l with
+  | nil =>
+    cases t with
+    | nil => simp
+    | cons c cs => simp [List.takeWhile, List.dropWhile, ht c cs rfl]
+  | cons x xs ih =>
+    have := ih (fun y hy => hl y (by simp [hy]))
+    simp [List.takeWhile, List.dropWhile, hl x (by simp), this.1, this.2]
+
+theorem alpha_facts {m : Char} (h : m.isAlpha = true) :
+    isWs m = false ∧ m ≠ ']' ∧ notMark2 m = true ∧ notMark m = true := by
+  refine ⟨?_, ?_, ?_, ?_⟩
+  · simp only [isWs, Bool.or_eq_false_iff, beq_eq_false_iff_ne, ne_eq]
+    refine ⟨⟨⟨?_, ?_⟩, ?_⟩, ?_⟩ <;> (intro e; subst e; revert h; decide)
+  · intro e; subst e; revert h; decide
+  · simp only [notMark2, bne_iff_ne, ne_eq]; intro e; subst e; revert h; decide
+  · simp only [notMark, bne_iff_ne, ne_eq]; intro e; subst e; revert h; decide
+
+theorem attrOpChar_cases {o : Char} (h : (attrOpOfChar o).isSome = true) :
+    o = '~' ∨ o = '|' ∨ o = '^' ∨ o = '$' ∨ o = '*' := by
+  by_cases h1 : o = '~'; · exact Or.inl h1
+  by_cases h2 : o = '|'; · exact Or.inr (Or.inl h2)
+  by_cases h3 : o = '^'; · exact Or.inr (Or.inr (Or.inl h3))
+  by_cases h4 : o = '$'; · exact Or.inr (Or.inr (Or.inr (Or.inl h4)))
+  by_cases h5 : o = '*'; · exact Or.inr (Or.inr (Or.inr (Or.inr h5)))
+  simp [attrOpOfChar, h1, h2, h3, h4, h5] at h
+
+/-- the operator, the modifier and the value as the printer writes them -/
+def opText (op : Option Char) : List Char := match op with | none => ['='] | some o => [o, '=']
+def modText (md : Option Char) : List Char := match md with | none => [] | some m => [' ', m]
+def isIdVal (val : Name) : Bool := val.all isIdentCharB && (val.head?.map isIdentStartB).getD false
+def valText (val : Name) : List Char := if isIdVal val then val else '"' :: val ++ ['"']
+
+/-- the three fields are recovered from the encoding -/
+theorem attrEnc_decode (val : Name) (md op : Option Char) (hv : wfAttrVal val)
+    (hm : ∀ m, md = some m → m.isAlpha = true) :
+    attrVal (attrEnc val md op) = val ∧ attrMod (attrEnc val md op) = md.toList ∧
+    attrOp (attrEnc val md op) = (match op with | none => some .eq | some o => attrOpOfChar o) := by
+  have h1 : ∀ x ∈ val, notMark x = true := by
+    intro x hx; simp [notMark, (hv x hx).2.2.1]
+  cases md with
+  | none =>
+    cases op with
+    | none =>
+      have := takeWhile_app_stop notMark val [] h1 (by intro c cs e; cases e)
+      simp only [List.append_nil] at this
+      simp [attrEnc, attrVal, attrMod, attrOp, attrTail, this.1, this.2]
+    | some o =>
+      have := takeWhile_app_stop notMark val ['\x01', '\x02', o] h1
+        (by intro c cs e; injection e with e1 _; subst e1; decide)
+      simp [attrEnc, attrVal, attrMod, attrOp, attrTail, this.1, this.2, List.takeWhile, List.dropWhile, notMark2]
+  | some m =>
+    have hm2 : (m != '\x02') = true := (alpha_facts (hm m rfl)).2.2.1
+    cases op with
+    | none =>
+      have := takeWhile_app_stop notMark val ['\x01', m] h1
+        (by intro c cs e; injection e with e1 _; subst e1; decide)
+      simp [attrEnc, attrVal, attrMod, attrOp, attrTail, this.1, this.2, List.takeWhile, List.dropWhile, hm2, notMark2]
+    | some o =>
+      have := takeWhile_app_stop notMark val ['\x01', m, '\x02', o] h1
+        (by intro c cs e; injection e with e1 _; subst e1; decide)
+      simp [attrEnc, attrVal, attrMod, attrOp, attrTail, this.1, this.2, List.takeWhile, List.dropWhile, hm2, notMark2]
+
+theorem attrOp_text {o : Char} (h : (attrOpOfChar o).isSome = true) :
+    (match attrOpOfChar o with | some k => k.text | none => ['=']) = [o, '='] := by
+  rcases attrOpChar_cases h with e | e | e | e | e <;> subst e <;> rfl
+
+theorem renderS_attr (n val : Name) (md op : Option Char) (hv : wfAttrVal val)
+    (hm : ∀ m, md = some m → m.isAlpha = true) (ho : ∀ o, op = some o → (attrOpOfChar o).isSome = true) :
+    renderS (.attr n (some (attrEnc val md op))) = '[' :: n ++ opText op ++ valText val ++ modText md ++ [']'] := by
+  obtain ⟨d1, d2, d3⟩ := attrEnc_decode val md op hv hm
+  have e1 : attrOpText (attrEnc val md op) = opText op := by
+    unfold attrOpText
+    rw [d3]
+    cases op with
+    | none => rfl
+    | some o => exact attrOp_text (ho o rfl)
+  have e2 : attrValueText (attrEnc val md op) = valText val ++ modText md := by
+    unfold attrValueText
+    rw [d1, d2]
+    cases md <;> simp [valText, isIdVal, modText]
+  simp only [renderS, e1, e2, List.append_assoc]
+
+theorem spanUntilQuote_app (q : Char) : ∀ (val rest : List Char), (∀ x ∈ val, x ≠ q ∧ x ≠ '\\') →
+    spanUntilQuote q (val ++ q :: rest) = some (val, rest) := by
+  intro val
+  induction val with
+  | nil => intro rest _; simp [spanUntilQuote]
+  | cons c cs ih =>
+    intro rest h
+    have hc := h c (by simp)
+    simp [spanUntilQuote, hc.1, hc.2, ih rest (fun y hy => h y (by simp [hy]))]
+
+theorem isIdVal_valid {val : Name} (h : isIdVal val = true) : validName val := by
+  simp only [isIdVal, Bool.and_eq_true] at h
+  cases val with
+  | nil => simp at h
+  | cons c cs =>
+    simp only [List.head?_cons, Option.map_some, Option.getD_some] at h
+    exact ⟨⟨c, cs, rfl, h.2⟩, h.1⟩
+
+theorem pAttrValue_app (val tl : List Char) (hv : wfAttrVal val) (htl : NoIdent tl) :
+    pAttrValue (valText val ++ tl) = some (val, tl) := by
+  unfold valText
+  cases hid : isIdVal val with
+  | true =>
+    have hvn := isIdVal_valid hid
+    obtain ⟨c, cs, e, hc⟩ := validName_head hvn
+    have hf := identStart_facts hc
+    have hp := pIdent_app val tl hvn htl
     subst e
-    simp only [List.head?_cons, Option.map_some, Option.getD_some, Bool.and_eq_true]
-    exact ⟨hall, hc⟩
-  unfold attrValueText
-  rw [takeWhile_all _ v h1, dropWhile_all _ v h1]
-  simp only [hid]
-  simp
+    simp only [if_true, List.cons_append] at hp ⊢
+    unfold pAttrValue
+    split
+    · rename_i heq; injection heq with h1; exact absurd h1 hf.2.2.2.2.2.2.2.2.2.2.1
+    · rename_i heq; injection heq with h1; exact absurd h1 hf.2.2.2.2.2.2.2.2.2.2.2.1
+    · exact hp
+  | false =>
+    simp only [Bool.false_eq_true, if_false, List.cons_append, List.append_assoc, List.nil_append]
+    simp only [pAttrValue]
+    exact spanUntilQuote_app '"' val tl (fun x hx => ⟨(hv x hx).1, (hv x hx).2.1⟩)
+
+theorem pAttrEnd_app (md : Option Char) (rest : List Char) (hm : ∀ m, md = some m → m.isAlpha = true) :
+    pAttrEnd (modText md ++ ']' :: rest) = some (md, rest) := by
+  cases md with
+  | none => simp [pAttrEnd, modText, skipWs, isWs]
+  | some m =>
+    have ha := hm m rfl
+    obtain ⟨h1, h2, _, _⟩ := alpha_facts ha
+    simp only [pAttrEnd, modText, List.cons_append, List.nil_append]
+    have e1 : skipWs (' ' :: m :: ']' :: rest) = m :: ']' :: rest := by
+      rw [skipWs, if_pos (by decide), skipWs, if_neg (by simp [h1])]
+    rw [e1]
+    split
+    · rename_i heq; injection heq with h3 _; exact absurd h3 h2
+    · rename_i heq
+      injection heq with h3 h4
+      subst h3 h4
+      simp [ha, skipWs, isWs]
+    · rename_i heq; cases heq
+
+theorem noIdent_modText (md : Option Char) (rest : List Char) : NoIdent (modText md ++ ']' :: rest) := by
+  intro c cs e
+  cases md with
+  | none => simp only [modText, List.nil_append] at e; injection e with e1 _; subst e1; decide
+  | some m => simp only [modText, List.cons_append] at e; injection e with e1 _; subst e1; decide
+
+theorem wfAttrVal_contains {val : Name} (hv : wfAttrVal val) :
+    (val.contains '\x01' || val.contains '\x02') = false := by
+  have a : val.contains '\x01' = false := by
+    cases hcn : val.contains '\x01' with
+    | false => rfl
+    | true => have hm : '\x01' ∈ val := by simpa using hcn
+              exact absurd rfl (hv _ hm).2.2.1
+  have b : val.contains '\x02' = false := by
+    cases hcn : val.contains '\x02' with
+    | false => rfl
+    | true => have hm : '\x02' ∈ val := by simpa using hcn
+              exact absurd rfl (hv _ hm).2.2.2
+  rw [a, b]; rfl
+
+theorem skipWs_nows {c : Char} (cs : List Char) (h : isWs c = false) : skipWs (c :: cs) = c :: cs := by
+  rw [skipWs, if_neg (by simp [h])]
+
+theorem pAttrOp_eq (r : List Char) : pAttrOp ('=' :: r) = some (none, r) := by simp [pAttrOp]
+
+theorem pAttrOp_op (o : Char) (r : List Char) (h : o = '~' ∨ o = '|' ∨ o = '^' ∨ o = '$' ∨ o = '*') :
+    pAttrOp (o :: '=' :: r) = some (some o, r) := by
+  rcases h with e | e | e | e | e <;> subst e <;> simp [pAttrOp, attrOpOfChar]
+
+theorem valText_head (val tl : List Char) : ∃ c cs, valText val ++ tl = c :: cs ∧ isWs c = false := by
+  unfold valText
+  cases hid : isIdVal val with
+  | true =>
+    obtain ⟨c, cs, e, hc⟩ := validName_head (isIdVal_valid hid)
+    subst e
+    exact ⟨c, cs ++ tl, by simp, (identStart_facts hc).2.2.2.2.2.2.2.2.2.2.2.2.1⟩
+  | false => exact ⟨'"', val ++ ['"'] ++ tl, by simp, by decide⟩
+
+/-- the parser reads back an attribute selector with any operator, modifier and value form -/
+theorem pAttr_app (n val : Name) (md op : Option Char) (rest : List Char) (hn : validName n) (hv : wfAttrVal val)
+    (hm : ∀ m, md = some m → m.isAlpha = true) (ho : ∀ o, op = some o → (attrOpOfChar o).isSome = true) :
+    pAttr (n ++ opText op ++ valText val ++ modText md ++ ']' :: rest) =
+      some (.attr n (some (attrEnc val md op)), rest) := by
+  have hval := pAttrValue_app val (modText md ++ ']' :: rest) hv (noIdent_modText md rest)
+  have hend := pAttrEnd_app md rest hm
+  have hcont := wfAttrVal_contains hv
+  obtain ⟨c, cs, ehead, hws⟩ := valText_head val (modText md ++ ']' :: rest)
+  have hsk : skipWs (valText val ++ (modText md ++ ']' :: rest)) = valText val ++ (modText md ++ ']' :: rest) := by
+    rw [ehead]; simp [skipWs, hws]
+  simp only [List.append_assoc]
+  unfold pAttr
+  rw [skipWs_ident hn]
+  cases op with
+  | none =>
+    have hp := pIdent_app n ('=' :: (valText val ++ (modText md ++ ']' :: rest))) hn
+      (by intro c cs e; injection e with e1 _; subst e1; decide)
+    simp only [opText, List.cons_append, List.nil_append]
+    rw [hp]
+    dsimp only
+    rw [skipWs_nows _ (by decide)]
+    split
+    · rename_i heq; injection heq with h _; exact absurd h (by decide)
+    · rw [pAttrOp_eq]
+      dsimp only
+      rw [hsk, hval]
+      simp only [hcont, Bool.false_eq_true, if_false, hend]
+  | some o =>
+    have hcases := attrOpChar_cases (ho o rfl)
+    have hp := pIdent_app n (o :: '=' :: (valText val ++ (modText md ++ ']' :: rest))) hn (by
+        intro c cs e; injection e with e1 _; subst e1
+        rcases hcases with e | e | e | e | e <;> subst e <;> decide)
+    have hows : isWs o = false := by rcases hcases with e | e | e | e | e <;> subst e <;> decide
+    have hob : o ≠ ']' := by rcases hcases with e | e | e | e | e <;> subst e <;> decide
+    simp only [opText, List.cons_append, List.nil_append]
+    rw [hp]
+    dsimp only
+    rw [skipWs_nows _ hows]
+    split
+    · rename_i heq; injection heq with h _; exact absurd h hob
+    · rw [pAttrOp_op o _ hcases]
+      dsimp only
+      rw [hsk, hval]
+      simp only [hcont, Bool.false_eq_true, if_false, hend]
 
 theorem pSimple_type_head (c : Char) (cs : List Char) (f : Nat) (hc : isIdentStart c = true) :
     pSimple (f + 1) (c :: cs) = (pIdent (c :: cs)).map fun (n, r') => (Simple.type n, r') := by
@@ -129,7 +353,7 @@ theorem pSimple_colon (c : Char) (cs : List Char) (f : Nat) (hc : c ≠ ':') :
       match pIdent (c :: cs) with
       | some (n, '(' :: r') =>
         match pnameOf n with
-        | none => none
+        | none => (pOpaqueArg false n r').map fun (m, r'') => (.pclass m, r'')
         | some k =>
           match pList f (skipWs r') with
           | some (l, r'') =>
@@ -210,52 +434,12 @@ theorem pSimple_app (s : Simple) (rest : List Char) (hs : wfS s) (hr : Stop rest
       simp [skipWs, isWs]
     | some v =>
       have hn : validName n := hs.1
-      have hv : validName v := hs.2
-      obtain ⟨c, cs, e, hc⟩ := validName_head hv
-      have hf := identStart_facts hc
-      have hp := pIdent_app n ('=' :: (v ++ ']' :: rest)) hn (by intro c cs e; injection e with e1 _; subst e1; decide)
-      have hpv := pIdent_app v (']' :: rest) hv (by intro c cs e; injection e with e1 _; subst e1; decide)
-      have hno : v.contains '\x01' = false := by
-        cases hcn : v.contains '\x01' with
-        | false => rfl
-        | true =>
-          have hm : '\x01' ∈ v := by simpa using hcn
-          have := (List.all_eq_true.1 hv.2) _ hm
-          revert this; decide
-      simp only [renderS, attrValueText_valid hv, List.cons_append, List.append_assoc, List.nil_append, pSimple, pAttr,
-        skipWs_ident hn]
-      rw [hp]
-      dsimp only
-      have e1 : skipWs ('=' :: (v ++ ']' :: rest)) = '=' :: (v ++ ']' :: rest) := by simp [skipWs, isWs]
-      rw [e1]
-      split
-      · rename_i heq; injection heq with h _; exact absurd h (by decide)
-      · rename_i r' heq
-        injection heq with _ h2
-        subst h2
-        rw [skipWs_ident hv]
-        subst e
-        simp only [List.cons_append] at hpv ⊢
-        have hval : (match c :: (cs ++ ']' :: rest) with
-            | '"' :: r'' => spanUntilQuote '"' r''
-            | '\'' :: r'' => spanUntilQuote '\'' r''
-            | _ => pIdent (c :: (cs ++ ']' :: rest))) = some (c :: cs, ']' :: rest) := by
-          split
-          · rename_i heq; injection heq with h1; exact absurd h1 hf.2.2.2.2.2.2.2.2.2.2.1
-          · rename_i heq; injection heq with h1; exact absurd h1 hf.2.2.2.2.2.2.2.2.2.2.2.1
-          · exact hpv
-        split
-        · rename_i v' r'' heq
-          have h3 := hval.symm.trans heq
-          injection h3 with h3; injection h3 with h4 h5
-          subst h4 h5
-          simp only [hno]
-          simp [skipWs, isWs]
-        · rename_i heq
-          have h3 := hval.symm.trans heq
-          cases h3
-      · rename_i h1 h2
-        exact absurd rfl (h2 _)
+      obtain ⟨val, md, op, e, hv, hm, ho⟩ := hs.2
+      subst e
+      have hp := pAttr_app n val md op rest hn hv hm ho
+      rw [renderS_attr n val md op hv hm ho]
+      simp only [List.cons_append, List.append_assoc, List.nil_append, pSimple] at hp ⊢
+      exact hp
   | parent x => exact hs.elim
   | sel k a => exact hs.elim
 
@@ -293,7 +477,7 @@ theorem renderS_head (s : Simple) (hs : wfS s) (ht : tailOK s) :
   | attr n v =>
     cases v with
     | none => exact ⟨'[', n ++ [']'], rfl, by decide, by decide, by decide⟩
-    | some v => exact ⟨'[', n ++ '=' :: attrValueText v ++ [']'], rfl, by decide, by decide, by decide⟩
+    | some v => exact ⟨'[', n ++ attrOpText v ++ attrValueText v ++ [']'], rfl, by decide, by decide, by decide⟩
   | parent x => exact hs.elim
   | sel k a => exact hs.elim
 
@@ -429,7 +613,7 @@ theorem renderC_head (c : Compound) (hc : wfC c) :
     | attr n v =>
       cases v with
       | none => exact ⟨'[', n ++ [']'] ++ renderC ss, by simp [renderC, renderS], by decide, by decide, by decide, by decide, by decide⟩
-      | some v => exact ⟨'[', n ++ '=' :: attrValueText v ++ [']'] ++ renderC ss, by simp [renderC, renderS], by decide, by decide, by decide, by decide, by decide⟩
+      | some v => exact ⟨'[', n ++ attrOpText v ++ attrValueText v ++ [']'] ++ renderC ss, by simp [renderC, renderS], by decide, by decide, by decide, by decide, by decide⟩
     | parent x => exact hs.elim
     | sel k a => exact hs.elim
 
